@@ -114,10 +114,51 @@ _DATES = st.one_of(
               st.integers(0, 59)).map(list))
 
 
+_PUB_FORMS = {}
+
+
+def _pub_form(key, form):
+    """The subject's public key as the caller may hold it: the bits are opaque to the issuing functions - whatever octets are
+    given are the certificate's Content.  Forms: DER SubjectPublicKeyInfo (default), the same key with a compressed EC point,
+    PEM text, DER with trailing octets, arbitrary octets."""
+    pub = key['pub']
+    if not form or form == 'der':
+        return pub
+    ck = (id(key), form)
+    if ck in _PUB_FORMS:
+        return _PUB_FORMS[ck]
+    out = pub
+    try:
+        if form == 'compressed' and key['kind'] == 'ec':
+            from Cryptodome.PublicKey import ECC
+            out = ECC.import_key(bytes(pub)).export_key(format='DER', compress=True)
+        elif form == 'pem':
+            if key['kind'] == 'rsa':
+                from Cryptodome.PublicKey import RSA
+                out = RSA.import_key(bytes(pub)).export_key(format='PEM')
+            else:
+                from Cryptodome.PublicKey import ECC
+                out = ECC.import_key(bytes(pub)).export_key(format='PEM').encode()
+        elif form == 'pkcs1' and key['kind'] == 'rsa':
+            from Cryptodome.PublicKey import RSA
+            from Cryptodome.Util.asn1 import DerSequence
+            k = RSA.import_key(bytes(pub))
+            out = DerSequence([k.n, k.e]).encode()
+        elif form == 'opaque':
+            out = b'\x30\x03\x02\x01\x05 not a key at all \x00\xff'
+    except Exception:
+        out = pub
+    _PUB_FORMS[ck] = bytes(out)
+    return _PUB_FORMS[ck]
+
+
 @st.composite
 def _case(draw):
     fn = draw(st.sampled_from(['derive', 'derive', 'derive', 'self', 'req']))
     ident = draw(S.name(0, 3, 10, allow_digest_types=False))
+    if draw(st.integers(0, 5)) == 0:
+        # an identity that itself ends with  /KEY/<something>  (an archive of keys, say): the key name is still identity/KEY/key-id
+        ident = list(ident) + [[8, b'KEY'.hex()], draw(st.sampled_from([[8, '61726368697665'], [8, '01'], [8, b'KEY'.hex()]]))]
     key_id = draw(st.one_of(st.binary(min_size=1, max_size=8).map(bytes.hex), st.just('01')))
     signer = draw(K.signer_spec(['ecdsa', 'ecdsa', 'rsa', 'ed25519', 'hmac', 'synthetic'],
                                 kl=S.name(0, 4, 10, allow_digest_types=False)))
@@ -125,6 +166,7 @@ def _case(draw):
         signer['kl'] = [[8, '6b']]
     return {'fn': fn, 'ident': ident, 'key_id': key_id, 'rep': draw(st.sampled_from([0, 1, 3, 5])),
             'subject': draw(st.sampled_from(SUBJECTS)), 'signer': signer,
+            'pub_form': draw(st.sampled_from(['der', 'der', 'der', 'compressed', 'pem', 'pkcs1', 'opaque'])),
             'issuer': draw(st.one_of(st.sampled_from(['self', 'ndn', 'a.b', 'x-1', 'a%2Fb', '%41%00', '32=k', 'v=7', 'seg=300', '300=x%2F']).map(lambda t: {'text': t}),
                                      S.component(10).map(lambda c: {'comp': c}))),
             'start': draw(_DATES), 'aware': draw(st.booleans()),
@@ -165,7 +207,7 @@ def run_case(case):
 def _run_case(case):
     r = Result()
     spec = case['signer']
-    pub = K.KEYS[case['subject']]['pub']
+    pub = _pub_form(K.KEYS[case['subject']], case.get('pub_form'))
     secv2.timestamp = lambda: case['clock_ms']
     secv2.datetime = _Clock
     try:
